@@ -608,6 +608,10 @@ def bcast_shape(rg, bs, h, kind):
     return tuple(bs) + (1,)
   if kind == 'batch1':
     return (1,) * len(bs) + (h,)
+  if kind == 'rank2':
+    return ()              # "broadcastable to [batch..., num_heads, q_length, kv_length]": a bare (q_length, kv_length) mask / bias
+  if kind == 'rank3':
+    return (h,)
   if kind in ('bpart', 'bpart_head1'):
     # same rank, broadcast over SOME batch dimensions only (needs two batch dims to differ from full/batch1)
     keep = int(rg.integers(0, max(len(bs), 1)))
@@ -635,6 +639,14 @@ def attn_fn_configs(ctx, n):
         c['mask'] = r.choice(['bpart', 'bpart_head1'])
     else:
       c.pop('partial')
+    r5 = ctx.rng('attn.fn', 'lowrank', i)
+    if r5.random() < 0.3:
+      c['mask' if r5.random() < 0.6 else 'bias'] = r5.choice(['rank2', 'rank3'])
+      c['Dv'] = c['D']      # keep the fused NNX path reachable
+  # two fixed configurations: a bare (q, kv) mask / bias with TWO batch dimensions on the fused path
+  for which in ('mask', 'bias'):
+    out.append(dict(batch=(2, 3), Tq=3, Tk=3, H=2, D=2, Dv=2, bias='none', mask='none', dead=False, mask_bool=True, eager=False, **{}))
+    out[-1][which] = 'rank2'
   return out
 
 
